@@ -2409,14 +2409,25 @@ theorem C09_aggr_elem_integer {F} (env : Env F) (hcfg : env.lex.criSkipsComments
     ElemReads env .integer id ⟨tok, before, after, .atom (.int (denoteInteger tok))⟩ :=
   ElemReads.integer env hcfg hagg tok before after htok hlo hhi hb ha
 
-/-- REAL and NUMBER elements: every token of the grammar `real` whose denotation converts, except the in-band null -/
+/-- REAL elements — and NUMBER elements as long as they are read by `ReadReal` like them (the listed finding
+    `agg:number-element-spelled-as-integer`): every token of the grammar `real` whose denotation converts, except the in-band null -/
 theorem C09_aggr_elem_real {F} (env : Env F) (hcfg : env.lex.criSkipsComments = true) (hagg : env.cfg.aggrSkipsComments = true)
-    (ty : ElemTy) (hty : ty = .real ∨ ty = .number)
+    (ty : ElemTy) (hty : ty = .real ∨ (ty = .number ∧ env.cfg.numberElemReadsNumber = false))
     (tok before after : List Byte) (dec : Decimal) (v : F) (htok : isReal tok = true) (hden : denoteReal tok = some dec)
     (hv : env.ops.ofDecimal dec = some v) (hnn : env.ops.isRealNull v = false)
     (hbuf : env.lex.realBuf = 0 ∨ tok.length < env.lex.realBuf) (hb : Seps before) (ha : Seps after) :
     ElemReads env ty id ⟨tok, before, after, .atom (.real v)⟩ :=
   ElemReads.real env hcfg hagg ty hty tok before after dec v htok hden hv hnn hbuf hb ha
+
+/-- NUMBER elements once `RealAggregate::ReadValue` reads them with `ReadNumber` (the repair of that finding): every token
+    of the `integer` *or* of the `real` grammar whose denotation converts, except the in-band null -/
+theorem C09_aggr_elem_number {F} (env : Env F) (hcfg : env.lex.criSkipsComments = true) (hagg : env.cfg.aggrSkipsComments = true)
+    (hnum : env.cfg.numberElemReadsNumber = true)
+    (tok before after : List Byte) (dec : Decimal) (v : F) (htok : isReal tok = true ∨ isInteger tok = true)
+    (hden : denoteReal tok = some dec) (hv : env.ops.ofDecimal dec = some v) (hnn : env.ops.isRealNull v = false)
+    (hb : Seps before) (ha : Seps after) :
+    ElemReads env .number id ⟨tok, before, after, .atom (.real v)⟩ :=
+  ElemReads.number env hcfg hagg hnum tok before after dec v htok hden hv hnn hb ha
 
 /-- STRING elements: every literal of the full string grammar -/
 theorem C09_aggr_elem_string {F} (env : Env F) (hcfg : env.lex.criSkipsComments = true) (hagg : env.cfg.aggrSkipsComments = true)
@@ -2496,6 +2507,15 @@ theorem C09_aggr_never_silent_partial {F} (env : Env F) (ty : ElemTy) (s : IStre
        (c3, s6) = (if s4.peekC.1 == 41 then getInto s4.peekC.1 s4.peekC.2 else (s4.peekC.1, s4.peekC.2))) :=
   aggrRead_sound env ty s sev es sf h hne
 
+/-- exclusion (1) of `C09_aggr_never_silent_partial` disappears with the loop's "missing element" test: in a configuration
+    with `aggrReportsMissingElement` (regenerated from the element loops) an element read that reports nothing worse than
+    INCOMPLETE — every element of a `LoopRun` — did not start at a delimiter; no element position is empty -/
+theorem C09_aggr_no_missing_element {F} (env : Env F) (hm : env.cfg.aggrReportsMissingElement = true) (ty : ElemTy) (s s1 : IStream)
+    (e : Sev) (v : Elem F) (h : elemRead env ty s = .ok (e, v, s1)) (hne : ¬ e.toInt < Sev.incomplete.toInt) :
+    (if env.cfg.aggrSkipsComments then readTokenSeparator s else s).peekC.1 ≠ 44 ∧
+    (if env.cfg.aggrSkipsComments then readTokenSeparator s else s).peekC.1 ≠ 41 :=
+  elemRead_not_missing env hm ty s s1 e v h hne
+
 /-- a `LoopRun` stores one value per element-reader call (so the count of stored elements is the count of element positions) -/
 theorem C09_aggr_looprun_elements {F} (env : Env F) (ty : ElemTy) (c : Byte) (s sf : IStream) (vs : List (Elem F))
     (h : LoopRun env ty c s vs sf) :
@@ -2512,26 +2532,39 @@ def aggrSilent (o : Except Stop (Sev × Option (List (Elem Nat)) × IStream)) (v
   | .ok (sev, some es, _) => sev == .null && es == vals
   | _ => false
 
-/-- the never-silent statement does *not* hold for aggregates as the element loop stands (proposed finding
-    `agg:missing-element-read-as-unset`): `('a',,'b')` — an element missing — is read with no error, the missing element
-    stored as an unset node; likewise `(.T.,)` and `(,#1)`.  (INTEGER elements report it: second conjunct.) -/
+/-- the reader model with the two aggregate switches set by hand (everything else as regenerated) -/
+def aggEnvWith (missing number : Bool) : Env Nat :=
+  { sampleEnv with cfg := { Generated.rwCfg with aggrReportsMissingElement := missing, numberElemReadsNumber := number } }
+
+def aggrSev (o : Except Stop (Sev × Option (List (Elem Nat)) × IStream)) : Option Sev :=
+  match o with
+  | .ok (sev, _, _) => some sev
+  | _ => none
+
+/-- the never-silent statement does *not* hold for aggregates while the element loop does not look for a missing element
+    (finding `agg:missing-element-read-as-unset`): `('a',,'b')` — an element missing — is read with no error, the missing
+    element stored as an unset node; likewise `(.T.,)`; INTEGER elements report it.  With the loop's "missing element" test
+    switched on the same inputs are reported. -/
 theorem C09_aggr_missing_element_witness :
-    aggrSilent (aggrRead sampleEnv .string (IStream.ofBytes [40, 39, 97, 39, 44, 44, 39, 98, 39, 41, 44]))
+    aggrSilent (aggrRead (aggEnvWith false false) .string (IStream.ofBytes [40, 39, 97, 39, 44, 44, 39, 98, 39, 41, 44]))
       [.atom (.str [39, 97, 39]), .atom .unset, .atom (.str [39, 98, 39])] = true ∧
-    aggrSilent (aggrRead sampleEnv .boolean (IStream.ofBytes [40, 46, 84, 46, 44, 41, 44])) [.atom (.enum 1), .atom .unset] = true ∧
-    (match aggrRead sampleEnv .integer (IStream.ofBytes [40, 49, 44, 44, 50, 41, 44]) with
-      | .ok (sev, _, _) => sev == .warning
-      | _ => false) = true := by
+    aggrSilent (aggrRead (aggEnvWith false false) .boolean (IStream.ofBytes [40, 46, 84, 46, 44, 41, 44])) [.atom (.enum 1), .atom .unset] = true ∧
+    aggrSev (aggrRead (aggEnvWith false false) .integer (IStream.ofBytes [40, 49, 44, 44, 50, 41, 44])) = some .warning ∧
+    aggrSev (aggrRead (aggEnvWith true false) .string (IStream.ofBytes [40, 39, 97, 39, 44, 44, 39, 98, 39, 41, 44])) = some .warning ∧
+    aggrSev (aggrRead (aggEnvWith true false) .boolean (IStream.ofBytes [40, 46, 84, 46, 44, 41, 44])) = some .warning := by
   decide
 
-/-- a conforming `LIST OF NUMBER` is not accepted silently (proposed finding `agg:number-element-spelled-as-integer`): `(3)`
-    is read to `[3.0]` but reported WARNING — NUMBER elements are read by `ReadReal`, which demands the decimal point —
-    while `(3.)` is accepted; this is why `C09_aggr_elem_real` asks for a token of the `real` grammar for NUMBER too -/
+/-- a conforming `LIST OF NUMBER` is not accepted silently while NUMBER elements are read by `ReadReal` (finding
+    `agg:number-element-spelled-as-integer`): `(3)` is read to `[3.0]` but reported WARNING, `(3.)` is accepted; with the
+    elements read by `ReadNumber` both are accepted -/
 theorem C09_aggr_number_integer_spelling_witness :
-    (match aggrRead sampleEnv .number (IStream.ofBytes [40, 51, 41, 44]) with
+    (match aggrRead (aggEnvWith false false) .number (IStream.ofBytes [40, 51, 41, 44]) with
       | .ok (sev, some [.atom (.real v)], _) => sev == .warning && v == 0x4008000000000000
       | _ => false) = true ∧
-    (match aggrRead sampleEnv .number (IStream.ofBytes [40, 51, 46, 41, 44]) with
+    (match aggrRead (aggEnvWith false false) .number (IStream.ofBytes [40, 51, 46, 41, 44]) with
+      | .ok (sev, some [.atom (.real v)], _) => sev == .null && v == 0x4008000000000000
+      | _ => false) = true ∧
+    (match aggrRead (aggEnvWith false true) .number (IStream.ofBytes [40, 51, 41, 44]) with
       | .ok (sev, some [.atom (.real v)], _) => sev == .null && v == 0x4008000000000000
       | _ => false) = true := by
   decide
